@@ -651,3 +651,47 @@ int loopcursor_good(const uint8_t* in, int groups, int w, int16_t* out, int fast
     }
     return n;
 }
+
+/* ---- R43 bit-addressed helpers (rules/bitfield.py) */
+typedef struct { const uint8_t* data; size_t size; size_t pos; uint64_t out[32]; } ctl_bits_t;
+static uint64_t ctl_get_bits_good(const uint8_t* base, size_t bit_off, int width) {
+    uint64_t v = 0;
+    int got = 0;
+    while (got < width) {
+        int shift = (int)(bit_off & 7);
+        int n = 8 - shift;
+        if (n > width - got) n = width - got;
+        v |= (uint64_t)((base[bit_off >> 3] >> shift) & ((1u << n) - 1u)) << got;
+        got += n;
+        bit_off += (size_t)n;
+    }
+    return v;
+}
+static uint64_t ctl_get_bits_bad(const uint8_t* base, size_t bit_off, int width) {
+    /* reads whole bytes up to and including the one after the field when the field ends on a byte boundary */
+    uint64_t v = 0;
+    size_t first = bit_off >> 3, last = (bit_off + (size_t)width) >> 3;
+    for (size_t k = first; k <= last && k < first + 8; k++) v |= (uint64_t)base[k] << (8 * (k - first));
+    return (v >> (bit_off & 7)) & (width >= 64 ? ~0ull : ((1ull << width) - 1));
+}
+int bitfield_good(ctl_bits_t* d, int n, int w) {
+    size_t need = ((size_t)n * (size_t)w + 7) / 8;
+    if (d->pos + need > d->size) return -1;
+    for (int i = 0; i < n; i++) d->out[i] = ctl_get_bits_good(d->data + d->pos, (size_t)i * (size_t)w, w);
+    d->pos += need;
+    return 0;
+}
+int bitfield_bad_guard(ctl_bits_t* d, int n, int w) {
+    size_t need = ((size_t)n * (size_t)w) / 8;                  /* one byte short unless n * w is a multiple of 8 */
+    if (d->pos + need > d->size) return -1;
+    for (int i = 0; i < n; i++) d->out[i] = ctl_get_bits_good(d->data + d->pos, (size_t)i * (size_t)w, w);
+    d->pos += need;
+    return 0;
+}
+int bitfield_bad_helper(ctl_bits_t* d, int n, int w) {
+    size_t need = ((size_t)n * (size_t)w + 7) / 8;
+    if (d->pos + need > d->size) return -1;
+    for (int i = 0; i < n; i++) d->out[i] = ctl_get_bits_bad(d->data + d->pos, (size_t)i * (size_t)w, w);
+    d->pos += need;
+    return 0;
+}
